@@ -377,7 +377,7 @@ func genAtom(r *rand.Rand) *predIn {
 			p.Val = B(pick(r, append(lqWords, lqNums...)))
 			p.Re, _ = json.Marshal(&ReAST{T: "eps"})
 		} else {
-			re := genRe(r, 2, "abx1 .=")
+			re := genReA(r, 2, "abx1 .=")
 			p.Val = B(re.Text())
 			p.Re, _ = json.Marshal(re)
 		}
@@ -419,7 +419,7 @@ func genLineFilter(r *rand.Rand) stageIn {
 		}
 		st.Re, _ = json.Marshal(&ReAST{T: "eps"})
 	} else {
-		re := genRe(r, 3, "abx=1 .")
+		re := genReA(r, 3, "abx=1 .")
 		st.Val = B(re.Text())
 		st.Re, _ = json.Marshal(re)
 	}
@@ -544,7 +544,7 @@ func genLogq(r *rand.Rand, mode string) logqIn {
 			}
 			m.Re, _ = json.Marshal(&ReAST{T: "eps"})
 		} else {
-			re := genRe(r, 2, "abwe")
+			re := genReA(r, 2, "abwe")
 			m.Val = B(re.Text())
 			m.Re, _ = json.Marshal(re)
 		}
@@ -616,7 +616,7 @@ func (famLogq) Gen(r *rand.Rand, n int, opt map[string]string) []any {
 
 // arbitrary valid Go regular expressions (well outside the algebra the specification can interpret)
 var wildRegexes = []string{`\d+`, `^a`, `b$`, `(?i)A`, `a{2,3}`, `\bk\b`, `[[:alpha:]]+=`, `.*`, `^$`, `(a|b)+c?`, `[^=]+=[^ ]+`, `\x61`, `(?s).`, `\S+\s\S+`,
-	`k=(a|b)`, `\pL`, `[\x00-\x1f]`, `a*?b`, `(?:)`, `=\d`, `^.{0,3}$`, `\.`, `e(rr)?`, `(?m)^x`}
+	`k=(a|b)`, `^ab$`, `^a$`, `^(?:abc)$`, `^err$`, `^a b$`, `\pL`, `[\x00-\x1f]`, `a*?b`, `(?:)`, `=\d`, `^.{0,3}$`, `\.`, `e(rr)?`, `(?m)^x`}
 
 func negOp(op string) string {
 	return map[string]string{"eq": "neq", "neq": "eq", "re": "nre", "nre": "re"}[op]
